@@ -308,13 +308,18 @@ def _run_base(ctx):
     toks = cmdstr.split()
     placeholders = toks[2:]
     positional = []
+    # the sub-parser of the `merge` subcommand: whatever local holds subparsers.add_parser('merge', ...)
+    mp_names = {nm for nm, ds in local_defs(dm).items() for v, k, st_ in ds
+                if isinstance(v, ast.Call) and isinstance(v.func, ast.Attribute) and v.func.attr == 'add_parser' and v.args and const_val(v.args[0]) == 'merge'}
+    if not mp_names:
+        raise AnalysisError('mergedriver.main: sub-parser of the merge subcommand not found')
     for c in calls_in(dm, nested=False):
-        if isinstance(c.func, ast.Attribute) and c.func.attr == 'add_argument' and dotted(c.func.value) == 'merge_parser' and c.args:
+        if isinstance(c.func, ast.Attribute) and c.func.attr == 'add_argument' and dotted(c.func.value) in mp_names and c.args:
             v = const_val(c.args[0])
             if isinstance(v, str) and not v.startswith('-'):
                 positional.append((c.lineno, [v]))
         if ('func', 'nbdime.args:add_filename_args') in cg.resolve(c.func, dm) and len(c.args) > 1 and \
-                dotted(c.args[0]) == 'merge_parser' and isinstance(c.args[1], (ast.List, ast.Tuple)):
+                dotted(c.args[0]) in mp_names and isinstance(c.args[1], (ast.List, ast.Tuple)):
             positional.append((c.lineno, [const_val(e) for e in c.args[1].elts]))
     order = [n for _, names in sorted(positional) for n in names]
     meaning = {'%O': 'base', '%A': 'local', '%B': 'remote', '%L': 'marker', '%P': 'out'}
